@@ -77,26 +77,69 @@ def gen_hub(rng):
     """one SOURCE with 11-13 destinations in range (the neighbour cap of 10 is per destination: a source may have any
     number of candidates).  Ten to twelve destinations on a ring each have a private source 1 px further out that takes
     them; one more destination, a little farther from the hub than the ring, is left for the hub: the optimum links
-    hub -> that destination (rank 11+ among the hub's candidates), anything else costs more"""
-    k = rng.choice([10, 11, 12])
-    R = Fraction(39, 4)                      # ring radius 9.75, search_range 10
-    rot = rng.random() * 2 * math.pi
+    hub -> that destination (rank 11+ among the hub's candidates), anything else costs more.  The rounding to quarter
+    pixels is re-drawn until that destination is strictly the hub's farthest candidate and the optimum is what is described"""
     q = lambda v: round(v * 4) / 4.0
-    ring = [(q(float(R) * math.cos(rot + 2 * math.pi * i / k)), q(float(R) * math.sin(rot + 2 * math.pi * i / k))) for i in range(k)]
-    priv = [(q(10.75 * math.cos(rot + 2 * math.pi * i / k)), q(10.75 * math.sin(rot + 2 * math.pi * i / k))) for i in range(k)]
-    a = rot + math.pi / k
-    extra = (q(9.9 * math.cos(a)), q(9.9 * math.sin(a)))
+    d2 = lambda a, b: (a[0] - b[0]) ** 2 + (a[1] - b[1]) ** 2
+    for _ in range(200):
+        k = rng.choice([10, 11, 12])
+        rot = rng.random() * 2 * math.pi
+        ring = [(q(9.75 * math.cos(rot + 2 * math.pi * i / k)), q(9.75 * math.sin(rot + 2 * math.pi * i / k))) for i in range(k)]
+        priv = [(q(10.75 * math.cos(rot + 2 * math.pi * i / k)), q(10.75 * math.sin(rot + 2 * math.pi * i / k))) for i in range(k)]
+        a = rot + math.pi / k
+        extra = (q(9.9 * math.cos(a)), q(9.9 * math.sin(a)))
+        hub = (0.0, 0.0)
+        e = d2(hub, extra)
+        if not (max(d2(hub, r) for r in ring) < e <= 100.0):
+            continue
+        # hub -> extra with every private source on its own ring point must beat hub -> ring_i with private_i unlinked or on extra
+        if all(e + d2(priv[i], ring[i]) < d2(hub, ring[i]) + min(100.0, d2(priv[i], extra)) for i in range(k)):
+            break
     mem = rng.choice([0, 0, 1])
-    f0 = [(0.0, 0.0)] + priv
+    f0 = [hub] + priv
     f1 = ring + [extra]
     rng.shuffle(f0); rng.shuffle(f1)
     return dict(frames=[np.array(f0, dtype=float), np.array(f1, dtype=float)], sr=Fraction(10), memory=mem, max_size=15,
                 strategy=rng.choice(['recursive', 'nonrecursive']), ndim=2)
 
 
+def gen_resume(rng):
+    """memory >= 3: a particle is lost for a few frames (fewer than memory - 1), resumed from memory, and two or more frames
+    AFTER the resumption - while the slot of the original loss is still in the memory queue - a newcomer appears right
+    where the particle was lost.  The remembered copy must be gone for good once the particle has been re-linked."""
+    mem = rng.choice([3, 3, 4, 5])
+    gap = rng.randint(1, mem - 2)
+    t_loss = rng.randint(1, 2)                       # first missing frame
+    t_res = t_loss + gap                             # resumed here
+    t_new = rng.randint(t_res + 1, t_loss + mem)     # the newcomer appears (stale copy, if any, still remembered)
+    n = t_new + rng.randint(1, 2)
+    ax = rng.choice([0, 1])
+    base = [float(rng.randint(10, 30)), float(rng.randint(10, 30))]
+    step = rng.choice([0.25, 0.5, 1.0])
+    far = [base[0] + 40.0, base[1] + 37.0]
+    frames = []
+    for t in range(n):
+        pts = []
+        a = list(base); a[ax] += step * t
+        if not (t_loss <= t < t_res):
+            pts.append(a)
+        if t >= t_new:
+            b = list(base); b[ax] += step * (t_loss - 1) - 0.25 * rng.randint(0, 3)      # next to where A was last seen before the loss
+            b[1 - ax] += 0.25 * rng.randint(-2, 2)
+            if b != a:
+                pts.append(b)
+        pts.append([far[0], far[1] + 0.5 * t])       # a bystander far away
+        rng.shuffle(pts)
+        frames.append(np.array(pts, dtype=float))
+    return dict(frames=frames, sr=Fraction(rng.choice([3, 4, 5])), memory=mem, max_size=linkgen.LIMIT,
+                strategy=rng.choice(['recursive', 'nonrecursive', 'numba', 'hybrid', 'auto']), ndim=2)
+
+
 def gen_case(rng, tier):
     if rng.random() < 0.12:
         return gen_crowded(rng)
+    if rng.random() < 0.08:
+        return gen_resume(rng)
     if rng.random() < 0.05:
         return gen_hub(rng)
     q = rng.random() < 0.5
